@@ -8,7 +8,26 @@ import (
 
 // ---- the booted + seeded database of C38 ------------------------------------------
 
-var c38Ledgers = []lx.LedgerSpec{{Name: "l1"}, {Name: "ls"}, {Name: "limp"}}
+var c38BaseLedgers = []lx.LedgerSpec{{Name: "l1"}, {Name: "ls"}, {Name: "limp"}}
+
+// c38FeatureLedgers: the CONFIGURATION dimension. A ledger is created with a feature set
+// (POST /v2/{ledger} {"features":…}); what a route can serve depends on it (the volumes
+// expansions need the moves, a point in time needs the histories…). Besides the default
+// set (l1): the moves off, the effective volumes off, the three features that do not feed
+// the volumes (log hashing, metadata histories) off together, and the minimal set
+// (everything off). Each of them holds the core of the history of l1 (c38L1Core: the
+// accounts, transactions and metadata the seed requests of l1 refer to), so that every
+// seed request of l1 is meaningful on it. (Every request of every case pays for the dump of
+// the whole database, twice: the feature ledgers are kept few and small.)
+var c38FeatureLedgers = []lx.LedgerSpec{
+	{Name: "fmh", Features: map[string]string{"MOVES_HISTORY": "OFF"}},
+	{Name: "fev", Features: map[string]string{"MOVES_HISTORY_POST_COMMIT_EFFECTIVE_VOLUMES": "DISABLED"}},
+	{Name: "fhist", Features: map[string]string{"HASH_LOGS": "DISABLED", "ACCOUNT_METADATA_HISTORY": "DISABLED", "TRANSACTION_METADATA_HISTORY": "DISABLED"}},
+	{Name: "fmin", Features: map[string]string{"MOVES_HISTORY": "OFF", "MOVES_HISTORY_POST_COMMIT_EFFECTIVE_VOLUMES": "DISABLED",
+		"HASH_LOGS": "DISABLED", "ACCOUNT_METADATA_HISTORY": "DISABLED", "TRANSACTION_METADATA_HISTORY": "DISABLED"}},
+}
+
+var c38Ledgers = append(append([]lx.LedgerSpec(nil), c38BaseLedgers...), c38FeatureLedgers...)
 
 const schemaV1 = `{"chart":{"world":{".self":{}},"bank":{".self":{}},"users":{"$userID":{".self":{},".metadata":{"role":{"default":"user"}},".pattern":"^[a-z0-9]+$"}}},` +
 	`"transactions":{"DEPOSIT":{"description":"deposit","runtime":"machine","script":"vars {\n account $dest\n monetary $mon\n}\nsend $mon (\n source = @world\n destination = $dest\n)"}},` +
@@ -27,7 +46,37 @@ func post(path, body string, q ...KV) Req {
 func get(path string, q ...KV) Req { return Req{Method: "GET", Path: path, Query: q} }
 
 // c38History is replayed through the router on the booted database (every request must be 2xx).
-var c38History = []Req{
+var c38History = append(append([]Req(nil), c38BaseHistory...), c38FeatureHistory()...)
+
+// c38FeatureHistory: the core of the history of l1, replayed on every feature ledger.
+func c38FeatureHistory() []Req {
+	var out []Req
+	for _, l := range c38FeatureLedgers {
+		for _, r := range c38L1Core {
+			if p, ok := retarget(r.Path, "l1", l.Name); ok {
+				c := r.clone()
+				c.Path = p
+				out = append(out, c)
+			}
+		}
+	}
+	return out
+}
+
+// retarget rewrites the ledger segment of a v1 or v2 path ("/v2/<from>/…", "/<from>/…").
+func retarget(path, from, to string) (string, bool) {
+	for _, prefix := range []string{"/v2/", "/"} {
+		rest, ok := strings.CutPrefix(path, prefix+from)
+		if ok && (rest == "" || rest[0] == '/') {
+			return prefix + to + rest, true
+		}
+	}
+	return "", false
+}
+
+// c38L1Core: what the seed requests of l1 refer to (alice, bob, carol, transactions 1-4,
+// their metadata).
+var c38L1Core = []Req{
 	post("/v2/l1/transactions", `{"postings":[{"source":"world","destination":"alice","asset":"USD/2","amount":100}],"metadata":{"k":"v"},"reference":"ref1","timestamp":"2023-01-01T00:00:00Z"}`),
 	post("/v2/l1/transactions", `{"postings":[{"source":"world","destination":"bob","asset":"USD/2","amount":50}],"timestamp":"2023-01-02T00:00:00Z"}`),
 	post("/v2/l1/transactions", `{"postings":[{"source":"alice","destination":"bob","asset":"USD/2","amount":10}],"metadata":{"k":"v"},"timestamp":"2023-01-03T00:00:00Z"}`),
@@ -36,6 +85,9 @@ var c38History = []Req{
 	post("/v2/l1/accounts/bob/metadata", `{"role":"user"}`),
 	post("/v2/l1/transactions/1/metadata", `{"tag":"t"}`),
 	{Method: "PUT", Path: "/v2/l1/metadata", Headers: jsonCT, Body: `{"owner":"me"}`},
+}
+
+var c38BaseHistory = append(append([]Req(nil), c38L1Core...), []Req{
 	// one log of every type in l1 (its export is the seed of the import route)
 	post("/v2/l1/transactions", `{"postings":[{"source":"world","destination":"zed","asset":"USD/2","amount":1}],"timestamp":"2023-01-05T00:00:00Z"}`),
 	post("/v2/l1/transactions/5/revert", ``),
@@ -46,7 +98,7 @@ var c38History = []Req{
 	post("/v2/ls/transactions", `{"script":{"template":"DEPOSIT","vars":{"dest":"users:u1","mon":"USD/2 42"}},"timestamp":"2023-01-01T00:00:00Z"}`, KV{"schemaVersion", "v1"}),
 	post("/v2/ls/transactions", `{"script":{"template":"DEPOSIT","vars":{"dest":"users:u2","mon":"USD/2 7"}},"timestamp":"2023-01-02T00:00:00Z"}`, KV{"schemaVersion", "v1"}),
 	post("/v2/ls/transactions", `{"script":{"template":"DEPOSIT","vars":{"dest":"bank","mon":"USD/2 7"}},"timestamp":"2023-01-03T00:00:00Z"}`, KV{"schemaVersion", "v1"}),
-}
+}...)
 
 // ---- seeds -------------------------------------------------------------------------
 
